@@ -30,7 +30,7 @@ RULE = (
 )
 BOUND = {
     "quick": "4000 messages; 12800 styles x 4 routes; full line-method table; 4 scopes x 3 sizes nested to depth 3 x 4 exits",
-    "thorough": "200000 messages; 41472 styles x 4 routes; full line-method table; nesting depth 4",
+    "thorough": "480000 messages; 41472 styles x 4 routes; full line-method table; nesting depth 4",
 }
 ASSUMPTIONS = [
     "nested styles do not merge: the visible style of a character is the innermost enclosing style (the formatter's documented stack behaviour)",
@@ -474,7 +474,7 @@ def plan(tier, seed):
         specs += [{"part": "styles", "fgs": q[i::2], "bgs": q} for i in range(2)]
         specs += [{"part": "lines"}] + [{"part": "indent", "depth": 3, "slice": [i, 2]} for i in range(2)]
         return specs
-    specs = [{"part": "messages", "n": 25000} for _ in range(8)]
+    specs = [{"part": "messages", "n": 60000} for _ in range(8)]
     specs += [{"part": "styles", "fgs": [fg], "bgs": fgs} for fg in fgs]
     specs += [{"part": "lines"}] + [{"part": "indent", "depth": 4, "slice": [i, 6]} for i in range(6)]
     return specs
